@@ -177,6 +177,7 @@ def run(ctx, n=None):
     res.rule = ("byte strings from: opcode soups with adversarial length fields; structured adversarial dict/set/tuple/list programs "
                 "(equal keys across bool/int/float/complex, arbitrary counts and indices); int-grammar and UTF-8 payload fuzz; every single-byte "
                 "substitution/deletion/insertion of valid dumps (exhaustive for dumps <= 40 B); ALL strict prefixes of generated valid dumps; "
+                "every fifth input through load() on a stream handing out 1 or 3 bytes per read; "
                 "distinct = distinct (mode, bytes); non-trivial = more than the version byte and one opcode")
     rng = ctx.rng("bytes")
     w = Worker()
@@ -213,6 +214,12 @@ def run(ctx, n=None):
                 else:
                     for m in mutations(rng, d, exhaustive and i % 30 == 8):
                         cases.append((m, "000", "mutation", None))
+        # every fifth input is loaded from a stream that hands out 1 or 3 bytes per read(): same outcome, same exact types
+        for j in range(0, len(cases), 5):
+            data, mode, origin, full = cases[j]
+            if mode[2] == "0" and origin != "corpus":
+                cases[j] = (data, mode[:2] + ("2" if j % 10 == 0 else "3"), origin, full)
+                res.stat("short_reading_stream_inputs")
         # run the implementation
         items = []
         for data, mode, origin, full in cases:
